@@ -67,9 +67,9 @@ inline long parse_as<long>(const std::string &s) { return std::stol(s); }
 template <>
 inline double parse_as<double>(const std::string &s) { return std::strtod(s.c_str(), nullptr); }
 template <>
-inline std::string parse_as<std::string>(const std::string &s) { return s; }
+inline std::string parse_as<std::string>(const std::string &s) { return s == "\\e" ? std::string() : s; }   // \e spells the empty label
 
-inline std::string to_s(const std::string &s) { return s; }
+inline std::string to_s(const std::string &s) { return s.empty() ? std::string("\\e") : s; }
 inline std::string to_s(size_t s) { return std::to_string(s); }
 inline std::string to_s(long s) { return std::to_string(s); }
 
